@@ -22,6 +22,10 @@ impl RingBuffer {
     }
 
     fn write_size(&self) -> usize {
+        if self.buffer.is_empty() {
+            return 0;
+        }
+
         if self.producer < self.consumer {
             return self.consumer - self.producer - 1;
         }
